@@ -190,8 +190,10 @@ def ident_of(beh):
 def replay_decode(beh, decoder=None):
     """spec -> code, decoder: the specification's octets go through the real Decoder."""
     from pybufrkit.decoder import Decoder
+    from pybufrkit import _verif
     dec = decoder or Decoder()
     data = bytes(beh['msg'])
+    del _verif.EVENTS[:]
     try:
         msg = dec.process(data)
     except Exception as e:
@@ -201,9 +203,47 @@ def replay_decode(beh, decoder=None):
     if beh['err']:
         return None, msg
     bad = compare_decoded(beh, msg)
+    if bad is None and _verif.enabled():
+        # code -> spec on every generated behaviour as well: the primitive events the hooks recorded (label, effective
+        # width / scale / reference each primitive was called with) against the entries of the specification
+        ev = [e for e in _verif.EVENTS if e.get('coder') == 'Decoder' and e.get('a', '').startswith('process_')]
+        bad = compare_events(beh, ev, cursors=False)
+    del _verif.EVENTS[:]
     if bad is None and msg.serialized_bytes != data:
         bad = (('decode', 'serialized_bytes', 'differ', ''), 'serialized_bytes differ from the input message')
     return bad, msg
+
+
+def cmp_narrow(e):
+    """a compressed string column carried in fewer octets than the element has (a foreign encoder's choice)"""
+    return e.get('d', -1) > 0 and 8 * e['d'] < e['w']
+
+
+def compare_events(parsed, events, cursors=True):
+    """Per-field bit cursors recorded by the hooks against the specification's cursor."""
+    ents = [e for s in parsed['subsets'] for e in s]
+    if len(events) != len(ents):
+        return (('trace', 'events', 'count', ''), '%d primitive events recorded, specification has %d fields' % (len(events), len(ents)))
+    base = parsed['data0']
+    for k, (ev, e) in enumerate(zip(events, ents)):
+        if ev['lab'] != e['lab']:
+            return (('trace', 'event', 'label', ''), 'event %d is %s, specification field %s' % (k, ev['lab'], e['lab']))
+        if cursors and ev['p1'] - base != e['p']:
+            return (('trace', 'event', 'cursor', feature_of(e)),
+                    'event %d (%s): cursor after the field %d, specification %d' % (k, e['lab'], ev['p1'] - base, e['p']))
+        # the effective parameters the primitive was called with (what operators 201 / 202 / 203 / 207 / 208 left in force)
+        a = ev.get('args') or []
+        if ev['a'] == 'process_numeric' and e['t'] == 'num' and len(a) == 3:
+            want = (e['w'], 10.0 ** e['sc'], pyb.wide_to_int(e['ref']))
+            if a[0] != want[0] or abs(a[1] - want[1]) > 1e-9 * want[1] or a[2] != want[2]:
+                return (('trace', 'event', 'parameters', feature_of(e)),
+                        'event %d (%s): called with width / 10^scale / reference %r, specification %r' % (k, e['lab'], a, want))
+        elif ev['a'] == 'process_codeflag' and e['t'] == 'code' and a and a[0] != e['w']:
+            return (('trace', 'event', 'parameters', feature_of(e)), 'event %d (%s): width %r, specification %d' % (k, e['lab'], a[0], e['w']))
+        elif ev['a'] == 'process_string' and e['t'] == 'str' and a and 8 * a[0] != e['w'] and not cmp_narrow(e):
+            return (('trace', 'event', 'parameters', feature_of(e)), 'event %d (%s): %r octets, specification %d bits' % (k, e['lab'], a[0], e['w']))
+    return None
+
 
 
 def replay_encode(beh, encoder=None, canonical=True):
